@@ -332,3 +332,6 @@ def C_sha(t):
 
 
 PROP = C01()
+
+PROP.rule += (" Strata added while closing seeded changes (DESIGN section 10): "
+              'comma/tab spacers; an earlier write of the same object that shares the option objects and/or is followed by in-place edits of the samples; LASFiles obtained by reading (any mnemonic_case) instead of built from scratch; reads into a LASFile that has read another file before.')
